@@ -7,6 +7,7 @@ global size_of usize == 8;
 
 //@ include prelude/std_specs.rs
 //@ include units/dltcore/part.rs
+//@ include units/filter/char4eq.rs
 //@ include units/filter/part.rs
 //@ include units/filterstream/part.rs
 
